@@ -268,9 +268,20 @@ def rule_hd_update(cx, rep, port):
     if port == 'py':
         p = cx.py
         wr = p.func('rbql_csv', 'CSVWriter.write')
+        from .. import snippet
+        from .. import cfg as cfgmod
+        fields = wr.args.args[1].arg
+        guards = [i for i in walk_no_nested(wr) if isinstance(i, ast.If) and snippet.alpha_equal(i.test, 'self.header_len is not None and len({0}) != self.header_len'.format(fields)) and any(isinstance(x, ast.Raise) for x in i.body)]
+        ok = False
         first = wr.body[0]
-        ok = isinstance(first, ast.If) and 'self.header_len is not None and len(fields) != self.header_len' == node_text(first.test) and 'RbqlIOHandlingError' in node_text(first.body[-1])
-        rep.decide(ok, 'CSVWriter width check', first, 'a record whose width differs from the header is an IO error', 'CSVWriter.write no longer rejects records whose width differs from the header')
+        if guards:
+            first = guards[0]
+            g = cfgmod.CFG(wr)
+            dom = g.dominators()
+            tn = [n_ for n_ in g.nodes if n_.ast is first.test]
+            outs = [n_ for n_ in g.nodes if cfgmod.node_contains(n_, lambda x: isinstance(x, ast.Call) and call_name(x) == 'self.stream.write')]
+            ok = bool(tn) and bool(outs) and all(g.dominates(tn[0], o, dom) for o in outs)
+        rep.decide(ok, 'CSVWriter width check', first, 'a record whose width differs from the header is an IO error (tested before anything is written)', 'CSVWriter.write no longer rejects records whose width differs from the header before writing them')
         sh = p.func('rbql_csv', 'CSVWriter.set_header')
         okh = 'self.header_len = len(header)' in node_text(sh, 600)
         rep.decide(okh, 'CSVWriter header width', sh, 'header width recorded', 'header width is not recorded')
@@ -411,12 +422,13 @@ def rule_va_esc(cx, rep, port):
         rep.decide(okp, 'quote pairs', pd, 'each key text uses the quote character that was escaped', 'a variable key uses a different quote character than the one its name was escaped for')
     # VA-SEG: candidate filter class disjoint from escaped characters
     qf = p.func(mod, 'query_probably_has_dictionary_variable')
-    cls = [c.value for c in ast.walk(qf) if isinstance(c, ast.Constant) and isinstance(c.value, str) and c.value.startswith('[') and c.value.endswith(']+')]
+    from .pa import regex_sites
+    cls = [st.pattern for st in regex_sites(cx, port) if st.func is qf and st.pattern is not None]
     if len(cls) != 1:
         rep.undecided('segment class', qf, 'segment character class not found')
     else:
         try:
-            lang = R.Lang(cls[0])
+            lang = R.Lang(cls[0], flavour='js' if port == 'js' else 'py')
             hit = [ch for ch in ['\\', '\n', '\r', '\t', '"', "'", '`'] if R.accepts(lang, ch)]
             rep.decide(not hit, 'segment class', qf, 'segments consist only of characters the escape function leaves unchanged', 'the candidate filter searches the query for segments containing {}: the escaped spelling in the query differs, so the variable is never bound'.format(hit))
         except R.Unsupported as e:
@@ -435,3 +447,50 @@ def rule_va_record(cx, rep, port='py'):
     rep.decide(ok, 'RBQLRecord', c, 'per-instance storage; missing key -> InternalBadKeyError(key)', 'RBQLRecord no longer keeps per-instance storage / maps a missing key to InternalBadKeyError')
     gc = p.func('rbql_engine', 'generate_common_init_code')
     rep.decide("'{} = RBQLRecord()'.format(variable_prefix)" in node_text(gc, 2000), 'record objects', gc, 'a fresh RBQLRecord per input record', 'a/b are not re-created per record')
+
+
+def rule_hd_emit(cx, rep, port):
+    """the CSV writer emits the header line for every query that has one: either set_header() writes it at once, or - when it is
+    kept for later - every normal path through finish() emits it or has tested that nothing is pending"""
+    from .. import cfg as cfgmod
+    p = cx.port(port)
+    sh = p.func('rbql_csv', 'CSVWriter.set_header')
+    fin = p.func('rbql_csv', 'CSVWriter.finish')
+    hdr = sh.args.args[1].arg
+    direct = [c for c in walk_no_nested(sh) if isinstance(c, ast.Call) and call_name(c) == 'self.write' and c.args and hdr in names_in(c.args[0])]
+    if direct:
+        g = cfgmod.CFG(sh)
+        # executed whenever the header is present
+        tests = [n for n in g.nodes if n.kind == 'test' and hdr in names_in(n.ast)]
+        dn = [n for n in g.nodes if cfgmod.node_contains(n, lambda x: x is direct[0])]
+        skip = g.exists_path(g.entry, lambda n: n is g.exit, avoid=lambda n: any(n is d for d in dn), edge_ok=lambda a, b, lab: not (any(a is t for t in tests) and lab == 'F') and lab not in ('exc', 'raise'))
+        rep.decide(not skip, 'header emission', direct[0], 'set_header() writes a copy of the header at once whenever there is one', 'set_header() can return without writing a header that is present')
+        return
+    pend = [a for a in walk_no_nested(sh) if isinstance(a, ast.Assign) and (dotted(a.targets[0]) or '').startswith('self.') and hdr in names_in(a.value) and not (isinstance(a.value, ast.Call) and dotted(a.value.func) == 'len')]
+    if not pend:
+        rep.violated('header emission', sh, 'set_header() neither writes the header nor keeps it: the output has no header line')
+        return
+    attr = dotted(pend[0].targets[0])
+    cls = p.cls('rbql_csv', 'CSVWriter')
+    emitters = {m.name for m in cls.body if isinstance(m, ast.FunctionDef) and any(isinstance(x, ast.Attribute) and dotted(x) == attr for x in ast.walk(m)) and any(isinstance(c, ast.Call) and call_name(c) in ('self.write', 'self.stream.write') for c in ast.walk(m)) and m.name not in ('write', 'finish', 'set_header')}
+
+    def emits(n):
+        return cfgmod.node_contains(n, lambda x: isinstance(x, ast.Call) and ((call_name(x) or '').split('.')[-1] in emitters or (call_name(x) == 'self.write' and x.args and attr in (dotted(x.args[0]) or ''))))
+    g = cfgmod.CFG(fin)
+    tests = [n for n in g.nodes if n.kind == 'test' and any(isinstance(x, ast.Attribute) and dotted(x) == attr for x in ast.walk(n.ast))]
+    dead = [n for n in g.nodes if n.kind == 'test' and 'broken_pipe' in node_text(n.ast)]
+
+    def edge_ok(a, b, lab):
+        if lab in ('exc', 'raise'):
+            return False
+        if any(a is t for t in tests) and lab == 'F':
+            return False     # nothing pending on this branch
+        if any(a is t for t in dead) and lab == 'T':
+            return False     # the consumer is gone: nothing can be emitted
+        return True
+    path = g.find_path(g.entry, lambda n: n is g.exit, avoid=emits, edge_ok=edge_ok)
+    if path:
+        where = [n for n in path if n.ast is not None]
+        rep.violated('header emission', where[-1].ast if where else fin, 'the header is kept in `{}` for later, and finish() has a normal path (through line {}) that neither emits it nor has tested that nothing is pending: a query with an empty result loses its header line on that path'.format(attr, where[-1].lineno if where else fin.lineno))
+    else:
+        rep.holds('header emission', pend[0], 'the deferred header `{}` is emitted, or tested to be absent, on every normal path through finish()'.format(attr))
